@@ -128,6 +128,11 @@ func (gc *GarbageCollector) GarbageCollectWatchesNow(ctx context.Context) error 
 
 	stop := make([]engine.WatchID, 0)
 	for _, wid := range running {
+		// Only composed resource watches are eligible for garbage
+		// collection. We must keep watching XRs and composition revisions.
+		if wid.Type != engine.WatchTypeComposedResource {
+			continue
+		}
 		if !used[wid] {
 			stop = append(stop, wid)
 		}
